@@ -77,7 +77,12 @@ type c23Multi struct {
 	Evs   []string `json:"events"`
 }
 
+// c23MaxRunning: the largest number of outgoing requests seen in the Running state at a quiescent point of the
+// last c23MultiRun (the outgoing maximum is 1).
+var c23MaxRunning int
+
 func c23MultiRun(cs c23Multi) (diag []string, stats string, left map[string]string, notDone []string, panicked string) {
+	c23MaxRunning = 0
 	sh := harness.Shape{Name: "chain2", Blocks: []harness.BlockSpec{{Edges: []harness.Edge{{To: 1}}}, {}}}
 	left = map[string]string{}
 	s := vsched.Run(vsched.Config{Fast: true}, func() {
@@ -122,9 +127,17 @@ func c23MultiRun(cs c23Multi) (diag []string, stats string, left map[string]stri
 			f.Net.Node(q.ID).Inject(sp.ID, gsmsg.NewMessage(nil, map[graphsync.RequestID]gsmsg.GraphSyncResponse{ids[n]: gsmsg.NewResponse(ids[n], graphsync.RequestCompletedFull, md)}, bl))
 		}
 		observe := func() {
-			for rid, ds := range gsq.PeerState(sp.ID).OutgoingState.Diagnostics() {
+			ps := gsq.PeerState(sp.ID).OutgoingState
+			for rid, ds := range ps.Diagnostics() {
 				diag = append(diag, fmt.Sprintf("%s: %s", harness.ShortID(rid), strings.Join(ds, "; ")))
 			}
+			running := 0
+			for _, st := range ps.RequestStates {
+				if st == graphsync.Running {
+					running++
+				}
+			}
+			c23MaxRunning = max(c23MaxRunning, running, len(ps.TaskQueueState.Active))
 		}
 		step := func() {
 			vsched.Quiesce()
@@ -187,32 +200,48 @@ func c23MultiRun(cs c23Multi) (diag []string, stats string, left map[string]stri
 }
 
 func c23MultiJudge(cs c23Multi) *core.Violation {
-	diag, stats, left, notDone, panicked := c23MultiRun(cs)
-	v := func(sig, what string) *core.Violation {
-		return &core.Violation{Signature: sig + "/requestor", What: fmt.Sprintf("one outgoing worker, requests A and B issued, then %v: %s", cs.Evs, what), Replay: cs}
+	vs := c23MultiJudgeAll(cs)
+	if len(vs) == 0 {
+		return nil
 	}
-	switch {
-	case panicked != "":
-		return v("panic", panicked)
-	case len(diag) > 0:
+	return vs[0]
+}
+
+// c23MultiJudgeAll: the oracles are independent (a stale pending task must not hide a request that never runs)
+func c23MultiJudgeAll(cs c23Multi) (out []*core.Violation) {
+	diag, stats, left, notDone, panicked := c23MultiRun(cs)
+	v := func(sig, what string) {
+		out = append(out, &core.Violation{Signature: sig + "/requestor", What: fmt.Sprintf("one outgoing worker, requests A and B issued, then %v: %s", cs.Evs, what), Replay: cs})
+	}
+	if panicked != "" {
+		v("panic", panicked)
+		return
+	}
+	if len(notDone) > 0 {
+		v("queued-request-never-completes", fmt.Sprintf("requests that were answered and not cancelled did not complete: %v (stats %s)", notDone, stats))
+	}
+	if c23MaxRunning > 1 {
+		v("more-outgoing-requests-running-than-the-maximum", fmt.Sprintf("%d requests running at a quiescent point, the outgoing maximum is 1", c23MaxRunning))
+	}
+	stale := len(diag) > 0
+	for _, d := range diag {
+		stale = stale && strings.Contains(d, "in pending task queue but appears to have no tracked state")
+	}
+	if len(diag) > 0 {
 		sig := "state-disagrees-with-queue-at-quiescence"
-		only := true
-		for _, d := range diag {
-			only = only && strings.Contains(d, "in pending task queue but appears to have no tracked state")
-		}
-		if only {
+		if stale {
 			// a queued request that is cancelled drops its state at once, its task stays pending until a worker pops it
 			sig = "cancelled-queued-request-leaves-pending-task"
 		}
-		return v(sig, fmt.Sprintf("diagnostics at a quiescent point: %v", diag[:min(len(diag), 3)]))
-	case len(notDone) > 0:
-		return v("queued-request-never-completes", fmt.Sprintf("requests that were answered and not cancelled did not complete: %v (stats %s)", notDone, stats))
-	case len(left) == 0 && stats != "active=0 pending=0":
-		return v("queue-not-empty-after-all-requests-ended", "no request is tracked any more but stats report "+stats)
-	case len(left) > 0:
-		return v("request-still-tracked-after-it-ended", fmt.Sprintf("%v", left))
+		v(sig, fmt.Sprintf("diagnostics at a quiescent point: %v", diag[:min(len(diag), 3)]))
 	}
-	return nil
+	if len(left) == 0 && stats != "active=0 pending=0" && len(notDone) == 0 {
+		v("queue-not-empty-after-all-requests-ended", "no request is tracked any more but stats report "+stats)
+	}
+	if len(left) > 0 && len(notDone) == 0 {
+		v("request-still-tracked-after-it-ended", fmt.Sprintf("%v", left))
+	}
+	return
 }
 
 func c23MultiCases() []c23Multi {
@@ -418,7 +447,7 @@ func runC23(c *core.Ctx) {
 		c.Res.States += int64(len(cs.Evs) + 2)
 		c.Res.Transitions += int64(len(cs.Evs) + 2)
 		c.Class("requestor-multi")
-		if v := c23MultiJudge(cs); v != nil {
+		for _, v := range c23MultiJudgeAll(cs) {
 			c.Violate(v.Signature, v.What, v.Replay)
 		}
 	}
@@ -552,8 +581,12 @@ func init() {
 			}
 			var mc c23Multi
 			if json.Unmarshal(raw, &mc) == nil && mc.Multi {
-				if v := c23MultiJudge(mc); v != nil {
-					return v.Signature + ": " + v.What
+				var lines []string
+				for _, v := range c23MultiJudgeAll(mc) {
+					lines = append(lines, v.Signature+": "+v.What)
+				}
+				if len(lines) > 0 {
+					return strings.Join(lines, " || ")
 				}
 				return "ok"
 			}
